@@ -1,61 +1,146 @@
-"""The limits a daemon derives from its configuration file at start-up (carbon.conf.CarbonCacheOptions.postOptions),
-computed by the real code in a child process (it rewrites the global settings object) from a carbon.conf in scratch."""
+"""Daemon start-up as carbon really does it, in a child process (it rewrites global settings and module state):
+the program's twistd Options.postOptions() on a carbon.conf in scratch, then carbon.service.create<Daemon>Service()
+with only the listeners left out.  The child reports the settings the daemon ends up with and how it is wired
+(pipelines, list files, rate-limit buckets, send-queue limits, data directory, destinations).  Boot.tla judges."""
 import json
 import os
 import subprocess
 import sys
 
-from . import env
+from . import tlc
 from .core import Machinery
 
 CHILD = r'''
 import sys, os, json
 sys.modules['carbon.amqp_listener'] = None
-conf_dir, conf_file = sys.argv[1], sys.argv[2]
+conf_dir, conf_file, program, instance, make_service = sys.argv[1], sys.argv[2], sys.argv[3], sys.argv[4], sys.argv[5] == '1'
 os.environ['GRAPHITE_ROOT'] = conf_dir
 os.environ['GRAPHITE_CONF_DIR'] = conf_dir
 os.environ['GRAPHITE_STORAGE_DIR'] = os.path.join(conf_dir, 'storage')
-from carbon import conf
-class Parent(dict):
-  subCommand = 'carbon-cache'
-p = Parent(pidfile='twistd.pid', umask=None, nodaemon=True, syslog=None)
-o = conf.CarbonCacheOptions()
-o.parent = p
-o['config'] = conf_file
-o['instance'] = 'a'
-o['debug'] = True
-o['action'] = 'start'
+os.environ['HOME'] = os.path.join(conf_dir, 'home')
+out = {}
 try:
-  o.postOptions()
-except SystemExit as e:
-  print(json.dumps(dict(error='SystemExit %r' % (e.code,))))
-  sys.exit(0)
-s = conf.settings
-def num(x):
-  return 'inf' if x == float('inf') else x
-print(json.dumps(dict(MAX_CACHE_SIZE=num(s.MAX_CACHE_SIZE), CACHE_SIZE_HARD_MAX=num(s.CACHE_SIZE_HARD_MAX),
-                      CACHE_SIZE_LOW_WATERMARK=num(s.CACHE_SIZE_LOW_WATERMARK), USE_FLOW_CONTROL=bool(s.USE_FLOW_CONTROL),
-                      USE_INSECURE_UNPICKLER=bool(s.USE_INSECURE_UNPICKLER), CACHE_WRITE_STRATEGY=s.CACHE_WRITE_STRATEGY,
-                      MAX_CREATES_PER_MINUTE=num(s.MAX_CREATES_PER_MINUTE), MAX_UPDATES_PER_SECOND=num(s.MAX_UPDATES_PER_SECOND))))
+  from carbon import conf, state
+  class Parent(dict):
+    subCommand = program
+  p = Parent(pidfile='twistd.pid', umask=None, nodaemon=True, syslog=None)
+  cls = {'carbon-cache': conf.CarbonCacheOptions, 'carbon-aggregator': conf.CarbonAggregatorOptions,
+         'carbon-aggregator-cache': conf.CarbonAggregatorOptions, 'carbon-relay': conf.CarbonRelayOptions}[program]
+  o = cls()
+  o.parent = p
+  o['config'] = conf_file
+  o['instance'] = instance or None
+  o['debug'] = True
+  o['action'] = 'start'
+  try:
+    o.postOptions()
+  except SystemExit as e:
+    print(json.dumps(dict(error='SystemExit %r' % (e.code,))))
+    sys.exit(0)
+  s = conf.settings
+  def num(x):
+    if isinstance(x, float) and x in (float('inf'), float('-inf')):
+      return 'inf'
+    return x
+  keys = ['MAX_CACHE_SIZE', 'CACHE_SIZE_HARD_MAX', 'CACHE_SIZE_LOW_WATERMARK', 'USE_FLOW_CONTROL', 'USE_INSECURE_UNPICKLER',
+          'CACHE_WRITE_STRATEGY', 'MAX_CREATES_PER_MINUTE', 'MAX_UPDATES_PER_SECOND', 'MAX_UPDATES_PER_SECOND_ON_SHUTDOWN',
+          'MIN_TIMESTAMP_RESOLUTION', 'MIN_TIMESTAMP_LAG', 'FORWARD_ALL', 'DESTINATIONS', 'REPLICATION_FACTOR', 'DIVERSE_REPLICAS',
+          'MAX_QUEUE_SIZE', 'QUEUE_LOW_WATERMARK_PCT', 'MAX_QUEUE_SIZE_HARD_PCT', 'USE_WHITELIST', 'LOCAL_DATA_DIR', 'TAG_RELAY_NORMALIZED',
+          'MAX_DATAPOINTS_PER_MESSAGE', 'PICKLE_RECEIVER_MAX_LENGTH', 'RELAY_METHOD', 'MAX_AGGREGATION_INTERVALS', 'DYNAMIC_ROUTER',
+          'MAX_RECEIVER_CONNECTIONS', 'TAG_QUEUE_SIZE', 'ENABLE_TAGS']
+  out['settings'] = {}
+  for k in keys:
+    try:
+      out['settings'][k] = num(getattr(s, k))        # the way carbon reads them (attributes assigned at start-up shadow items)
+    except Exception:
+      try:
+        out['settings'][k] = num(s[k])
+      except Exception:
+        out['settings'][k] = 'MISSING'
+  out['data_dir'] = getattr(state.database, 'data_dir', None) if state.database is not None else None
+  if make_service:
+    from carbon import service, events
+    import carbon.protocols
+    service.setupReceivers = lambda *a, **k: None
+    fn = {'carbon-cache': service.createCacheService, 'carbon-aggregator': service.createAggregatorService,
+          'carbon-aggregator-cache': service.createAggregatorCacheService, 'carbon-relay': service.createRelayService}[program]
+    root = fn(o)
+    out['pipeline'] = [type(x).plugin_name + (':' + getattr(x, 'ruleset', '') if hasattr(x, 'ruleset') else '') for x in state.pipeline_processors]
+    out['generated'] = [type(x).plugin_name + (':' + getattr(x, 'ruleset', '') if hasattr(x, 'ruleset') else '') for x in state.pipeline_processors_generated]
+    out['same_list'] = state.pipeline_processors is state.pipeline_processors_generated
+    from carbon.regexlist import WhiteList, BlackList
+    out['whitelist_file'] = WhiteList.list_file
+    out['blacklist_file'] = BlackList.list_file
+    out['whitelist_rules'] = len(WhiteList.regex_list)
+    out['blacklist_rules'] = len(BlackList.regex_list)
+    out['min_timestamp_resolution_after_service'] = num(s.MIN_TIMESTAMP_RESOLUTION)
+    w = sys.modules.get('carbon.writer')
+    if w is not None:
+      out['create_bucket'] = None if w.CREATE_BUCKET is None else [num(w.CREATE_BUCKET.capacity), num(w.CREATE_BUCKET.fill_rate)]
+      out['update_bucket'] = None if w.UPDATE_BUCKET is None else [num(w.UPDATE_BUCKET.capacity), num(w.UPDATE_BUCKET.fill_rate)]
+      out['tag_queue_max'] = w.tagQueue.add_queue.maxsize
+    c = sys.modules.get('carbon.client')
+    if c is not None:
+      out['send_queue_low'] = num(c.SEND_QUEUE_LOW_WATERMARK)
+      out['send_queue_hard'] = num(c.SEND_QUEUE_HARD_MAX)
+    if state.client_manager is not None:
+      out['destinations'] = [list(map(str, d)) for d in state.client_manager.client_factories if d is not None]
+      r = state.client_manager.router
+      out['router'] = type(r).plugin_name
+      out['router_rf'] = getattr(r, 'replication_factor', None)
+      out['router_diverse'] = getattr(r, 'diverse_replicas', None)
+    # flow-control wiring: what the full / space events are connected to
+    out['cachefull_handlers'] = len(events.cacheFull.handlers)
+    events.pauseReceivingMetrics.handlers[:] = [h for h in events.pauseReceivingMetrics.handlers]
+    before = bool(state.metricReceiversPaused)
+    events.cacheFull()
+    out['cachefull_pauses_now'] = bool(state.metricReceiversPaused) and not before
+    events.cacheSpaceAvailable()
+    out['space_resumes_now'] = not bool(state.metricReceiversPaused)
+except Exception as e:
+  import traceback
+  out['exception'] = '%s: %s' % (type(e).__name__, e)
+  out['traceback'] = traceback.format_exc()[-1500:]
+print(json.dumps(out, default=repr))
 '''
 
 
-def derive(scratch, lines):
-  """lines: the [cache] section of a carbon.conf; returns the settings the daemon ends up with"""
-  d = os.path.join(scratch, 'confsys')
+def boot(scratch, program, sections, instance='', service=True, files=None, tag='boot'):
+  """sections: {section name: [lines]}; files: {name: text} written next to carbon.conf.  Returns the child's report."""
+  d = os.path.join(scratch, 'confsys-%s' % tag)
   os.makedirs(os.path.join(d, 'storage'), exist_ok=True)
-  with open(os.path.join(d, 'storage-schemas.conf'), 'w') as fh:
-    fh.write('[default]\npattern = .*\nretentions = 60:10\n')
+  os.makedirs(os.path.join(d, 'home'), exist_ok=True)
+  base = {'storage-schemas.conf': '[default]\npattern = .*\nretentions = 60:10\n', 'aggregation-rules.conf': '', 'rewrite-rules.conf': '',
+          'relay-rules.conf': '[default]\ndefault = true\ndestinations = 127.0.0.1:2004:a\n'}
+  base.update(files or {})
+  for name, text in base.items():
+    with open(os.path.join(d, name), 'w') as fh:
+      fh.write(text)
   cf = os.path.join(d, 'carbon.conf')
   with open(cf, 'w') as fh:
-    fh.write('[cache]\nDATABASE = whisper\nLOCAL_DATA_DIR = %s\n' % os.path.join(d, 'storage', 'whisper'))
-    for l in lines:
-      fh.write(l + '\n')
+    for sec, lines in sections.items():
+      fh.write('[%s]\n' % sec)
+      for l in lines:
+        fh.write(l + '\n')
+      fh.write('\n')
   repo = os.environ.get('VERIF_REPO', '/repo')
   envv = dict(os.environ)
   envv['PYTHONPATH'] = os.pathsep.join([os.path.join(repo, 'lib'), os.path.join(os.path.dirname(os.path.dirname(os.path.abspath(__file__))), 'stubs')])
-  r = subprocess.run([sys.executable, '-c', CHILD, d, cf], capture_output=True, text=True, timeout=120, env=envv, cwd=d)
+  r = subprocess.run([sys.executable, '-c', CHILD, d, cf, program, instance, '1' if service else '0'], capture_output=True, text=True,
+                     timeout=120, env=envv, cwd=d)
   out = [l for l in r.stdout.splitlines() if l.startswith('{')]
   if not out:
     raise Machinery('confsys child gave no result: %s %s' % (r.stdout[-500:], r.stderr[-1500:]))
-  return json.loads(out[-1])
+  rep = json.loads(out[-1])
+  rep['dir'] = d
+  return rep
+
+
+def derive(scratch, lines):
+  """settings carbon-cache ends up with for a [cache] section (kept for the limit check of C10)"""
+  rep = boot(scratch, 'carbon-cache', {'cache': ['DATABASE = whisper'] + list(lines)}, service=False, tag='derive')
+  if 'exception' in rep:
+    return dict(error=rep['exception'])
+  if 'error' in rep:
+    return rep
+  return rep['settings']
